@@ -36,7 +36,7 @@ man = {
     "not_applicable": na,
     "notes": "TLA+ specification under /verif/spec (AyTree, AyParse, AyMerge, AyBuild, ...); TLC decides every claimed property; "
              "conformance in both directions (TLC behaviours replayed into the library; recorded library traces validated by TLC). "
-             "fix: commits in /repo are listed in known_findings.json.",
+             "fix: commits in /repo (F1..F25) and the one recorded, unrepaired finding (F26, C16: KNOWN-FINDING lines) are listed in known_findings.json.",
 }
 json.dump(man, open(os.path.join(VERIF, "MANIFEST.json"), "w"), indent=1)
 print("claimed:", [c["property_id"] for c in checks])
